@@ -34,6 +34,8 @@ def build_swing(M, D, xd1, x, p):
     ss.add('GENCLS', dict(idx='GEN', bus=1, gen='G1', Vn=110, Sn=100, M=M, D=D, xd1=xd1, ra=0.0, fn=FN))
     for k in range(2):
         ss.add('Toggle', dict(idx=f'T{k}', model='Line', dev='L2', t=-1, u=0))
+    for k in range(2):
+        ss.add('Toggle', dict(idx=f'U{k}', model='Line', dev='L3', t=-1, u=0))
     ss.setup()
     systems.quiet_tds(ss)
     return ss
@@ -56,7 +58,8 @@ def reference(M, D, xd1, x, p, sched, times):
     Ep, d0 = abs(E), np.angle(E)
     Pm = (Vtc * np.conj(I)).real
     w0 = 2 * np.pi * FN
-    breaks = [0.0] + [t for t, _ in sched] + [TF]
+    ev_times = sorted(set(e[0] for e in sched))
+    breaks = [0.0] + ev_times + [TF]
     state = [1, 1, 1]
     y = np.array([d0, 1.0])
     out_t, out_y = [0.0], [y.copy()]
@@ -65,7 +68,10 @@ def reference(M, D, xd1, x, p, sched, times):
     for k in range(len(breaks) - 1):
         a, b = breaks[k], breaks[k + 1]
         if k > 0:
-            state[1] = 1 - state[1]
+            for e in sched:
+                if e[0] == a:
+                    ln = e[2] if len(e) > 2 else 1
+                    state[ln] = 1 - state[ln]
         Xt = xd1 + xeq(state)
 
         def f(t, y, Xt=Xt):
@@ -104,11 +110,13 @@ class Swing(Part):
 
     def describe(self, tier):
         return ('M in (4, 8, 13) x D in (0, 2) x xd1 in (0.2, 0.3) x line x in (0.2, 0.5) x P in (0.4, 0.8) x schedules (none, open at '
-                't1 in (0, 0.1, 0.2, 0.35), open at t1 and reclose at t2 from a 4-point lattice) x (trapezoid, backeuler) x h in '
+                't1 in (0, 0.1, 0.2, 0.35), open at t1 and reclose at t2 from a 4-point lattice, two lines tripped at the same instant) x (trapezoid, backeuler) x h in '
                 '(1/30, 1/60, 1/120)' + ('; quick tier: default + all single and pair deviations of the five parameters' if tier == 'quick' else ''))
 
     SCHEDS = [[], [[0.1, 0]], [[0.2, 0]], [[0.35, 0]], [[0.1, 0], [0.25, 1]], [[0.1, 0], [0.4, 1]], [[0.2, 0], [0.3, 1]], [[0.0, 0]],
-              [[0.0, 0], [0.2, 1]]]
+              [[0.0, 0], [0.2, 1]],
+              # two lines tripped at the same instant (coincident events), one of them reclosed later
+              [[0.1, 0, 1], [0.1, 0, 2], [0.3, 1, 1]]]
 
     def cases(self, tier):
         axes = dict(M=(8.0, 4.0, 13.0), D=(0.0, 2.0), xd1=(0.3, 0.2), x=(0.5, 0.2), p=(0.8, 0.4))
@@ -145,8 +153,12 @@ class Swing(Part):
                     out.obs = dict(skipped='power flow failed')
                     out.nontrivial = False
                     return out
-                for k, (t, _) in enumerate(sched):
-                    ss.Toggle.t.v[k] = t
+                used = {1: 0, 2: 0}
+                for e in sched:
+                    ln = e[2] if len(e) > 2 else 1
+                    k = (0 if ln == 1 else 2) + used[ln]
+                    used[ln] += 1
+                    ss.Toggle.t.v[k] = e[0]
                     ss.Toggle.u.v[k] = 1
                 c = ss.TDS.config
                 c.tstep, c.tf, c.criteria = h, TF, 0
